@@ -971,4 +971,5 @@ func runC12(c *Ctx) {
 	checkIteratorNilOnlyAtExhaustion(c, "done-splits-only.iterator-nil-at-exhaustion")
 	checkListApplySiblings(c, "done-splits-only.listing-errors")
 	checkSilentSkipOnlyNotExists(c, c.P.BodyOf(c.P.Func("pkg/core.getSplitAsync")), "done-splits-only.split-skip-only-not-exists")
+	checkNoRelabelAsMissing(c, "done-splits-only.no-relabel")
 }
